@@ -10,7 +10,13 @@
 (*   RSegList   live list + in-flight set, read when the segment flow runs *)
 (*   RSegment   files of a listed segment as they are at that moment       *)
 (*   REnd                                                                  *)
-(* Fix = {"agg-dedup", "passive-content-at-begin"}: the design;            *)
+(* The flusher writes a segment in steps (zone metadata, columns, indexes): *)
+(* between FlushWriteBegin and FlushWrite the directory exists but is       *)
+(* incomplete.  As built a reader that scans such a directory may lose the  *)
+(* rows of ALL segments of that read (the segment flow ends early); the     *)
+(* design ("skip-partial-segments") ignores an incomplete directory.        *)
+(* Fix = {"agg-dedup", "passive-content-at-begin", "skip-partial-segments"}:*)
+(* the design;                                                              *)
 (* Fix = {}: as built - selections are de-duplicated by the response       *)
 (* writer, aggregates are not.                                             *)
 (***************************************************************************)
@@ -26,7 +32,7 @@ VARIABLES
   passive,    \* [seg -> [evs : Seq, cleared : BOOLEAN]]
   queue,      \* Seq of seg ids: jobs sent to the flush worker, not yet received
   job,        \* [seg, stage] of the job in the worker, or [seg |-> -1]; stages:
-              \* "recv" "written" "published" "cleared" "cleaned"
+              \* "recv" "writing" "written" "published" "cleared" "cleaned"
   inflight,   \* set of seg ids marked in flight
   dirs,       \* [seg -> Seq of events] on disk
   live,       \* set of seg ids in the live list
@@ -37,7 +43,11 @@ VARIABLES
 vars == <<nst, mem, passive, queue, job, inflight, dirs, live, nextSeg, rd>>
 Idle == [seg |-> -1, stage |-> "none"]
 RIdle == [pc |-> "idle", before |-> {}, memCopy |-> <<>>, snap |-> {}, todoP |-> {}, segList |-> {},
-          todoS |-> {}, rows |-> <<>>, listed |-> FALSE, done |-> 0]
+          todoS |-> {}, rows |-> <<>>, srows |-> <<>>, poison |-> FALSE, listed |-> FALSE, done |-> 0]
+\* the directory of the job's segment exists but is incomplete
+Partial(s) == job.seg = s /\ job.stage = "writing"
+\* what a read finally reports from: the memory rows, and the segment rows unless the segment flow ended early
+FinalRows(r) == r.rows \o (IF r.poison THEN <<>> ELSE r.srows)
 
 SeqSet(s) == {s[i] : i \in DOMAIN s}
 Count(s, e) == Cardinality({i \in DOMAIN s : s[i] = e})
@@ -64,8 +74,12 @@ FlushRecv ==
   /\ job' = [seg |-> Head(queue), stage |-> "recv"] /\ queue' = Tail(queue)
   /\ inflight' = inflight \cup {Head(queue)}
   /\ UNCHANGED <<nst, mem, passive, dirs, live, nextSeg, rd>>
-FlushWrite ==
+FlushWriteBegin ==
   /\ OthersMay /\ job.stage = "recv"
+  /\ job' = [job EXCEPT !.stage = "writing"]
+  /\ UNCHANGED <<nst, mem, passive, queue, inflight, dirs, live, nextSeg, rd>>
+FlushWrite ==
+  /\ OthersMay /\ job.stage = "writing"
   /\ dirs' = dirs @@ (job.seg :> passive[job.seg].evs) /\ job' = [job EXCEPT !.stage = "written"]
   /\ UNCHANGED <<nst, mem, passive, queue, inflight, live, nextSeg, rd>>
 FlushPublish ==
@@ -110,14 +124,20 @@ RSegList ==
   /\ UNCHANGED <<nst, mem, passive, queue, job, inflight, dirs, live, nextSeg>>
 RSegment(s) ==
   /\ rd.pc = "run" /\ rd.listed /\ s \in rd.todoS
-  /\ rd' = [rd EXCEPT !.todoS = @ \ {s}, !.rows = @ \o (IF s \in DOMAIN dirs THEN dirs[s] ELSE <<>>)]
+  /\ \/ rd' = [rd EXCEPT !.todoS = @ \ {s}, !.srows = @ \o (IF s \in DOMAIN dirs THEN dirs[s] ELSE <<>>)]
+     \* as built an incomplete directory is scanned: depending on which files exist and which the read
+     \* needs, its rows are found already, or the segment flow ends early and loses the rows of all segments
+     \/ /\ Partial(s) /\ "skip-partial-segments" \notin Fix
+        /\ rd' = [rd EXCEPT !.todoS = @ \ {s}, !.srows = @ \o passive[s].evs]
+     \/ /\ Partial(s) /\ "skip-partial-segments" \notin Fix
+        /\ rd' = [rd EXCEPT !.todoS = @ \ {s}, !.poison = TRUE]
   /\ UNCHANGED <<nst, mem, passive, queue, job, inflight, dirs, live, nextSeg>>
 REnd ==
   /\ rd.pc = "run" /\ rd.listed /\ rd.todoP = {} /\ rd.todoS = {}
   /\ rd' = [rd EXCEPT !.pc = "ended", !.done = @ + 1]
   /\ UNCHANGED <<nst, mem, passive, queue, job, inflight, dirs, live, nextSeg>>
 
-Next == \/ Store \/ FlushRecv \/ FlushWrite \/ FlushPublish \/ FlushClear \/ FlushClean \/ FlushDone
+Next == \/ Store \/ FlushRecv \/ FlushWriteBegin \/ FlushWrite \/ FlushPublish \/ FlushClear \/ FlushClean \/ FlushDone
         \/ RBegin \/ RSegList \/ REnd
         \/ \E s \in DOMAIN passive : RPassive(s)
         \/ \E s \in 0..MaxEv : RSegment(s)
@@ -129,9 +149,9 @@ CountOf(rows) == IF "agg-dedup" \in Fix THEN Cardinality(SeqSet(rows)) ELSE Len(
 
 \* C03 at the end of a read: every event applied before the read began is reflected exactly once,
 \* nothing is reflected twice, COUNT = number of distinct events of the selection
-NoneMissed == rd.pc = "ended" => rd.before \subseteq Selection(rd.rows)
-CountExact == rd.pc = "ended" => CountOf(rd.rows) = Cardinality(Selection(rd.rows))
+NoneMissed == rd.pc = "ended" => rd.before \subseteq Selection(FinalRows(rd))
+CountExact == rd.pc = "ended" => CountOf(FinalRows(rd)) = Cardinality(Selection(FinalRows(rd)))
 ReadExactlyOnce == NoneMissed /\ CountExact
 \* everything returned was applied (nothing foreign)
-NoForeign == SeqSet(rd.rows) \subseteq 1..nst
+NoForeign == SeqSet(FinalRows(rd)) \subseteq 1..nst
 =============================================================================
